@@ -1125,6 +1125,10 @@ def c07_oracle(full, io, b):
             t = (sc + ":" if sc else "") + ("//" + au_ if (au_ or slashes) else "") + pa_
             return t + ("?" + qu if qu else "") + ("#" + fr if fr else "")
         cands = {comp(au, pa, False), comp(au, pa, True)} if not au else {comp(au, pa, False)}
+        if not au and pa.startswith("//"):
+            # RFC 3986 3.3 / 5.3: without an authority a path cannot begin with "//" - the empty authority has to be written, or the
+            # string decomposes differently (authority = the first segment)
+            cands = {comp(au, pa, True)}
         if st_ in cands:
             continue
         cls = "recompose"
@@ -1182,6 +1186,15 @@ def c07_streams(rng, tier, budget):
             st.add("su\t" + enc(lead + body))
             st.obs_all(st.new(lead + body, encoded=True), ["val", "scheme", "raw_host", "raw_path", "str"])
             st.obs_all(st.new(lead + body), ["val", "scheme", "raw_host", "raw_path", "str"])
+    # runs of 0-6 slashes after every kind of scheme, in both constructor modes, with the string form read back: an empty authority in front
+    # of a path that begins with "//" has to be written ("////a" is authority '', path '//a', NOT authority 'a')
+    for sch in ["", "x:", "http:", "ws:", "X:", "file:", " \t"]:
+        for k in range(7):
+            for tail in ["a/b", "a", "", "?q", "#f", "a//b", "/?#"]:
+                s = sch + "/" * k + tail
+                st.add("su\t" + enc(s))
+                st.obs_all(st.new(s, encoded=True), C07_OBS)
+                st.obs_all(st.new(s), C07_OBS)
     yield "delimiter-strings", st
     st3 = Stream()
     for s in gens.strings_over(["[", "]", "@", ":", "a", "1", ".", "v"], 5 if tier == "quick" else 6):
